@@ -114,6 +114,16 @@ def step (_ : Unit) (line : String) : Unit × String :=
         verdictWith peq (fun pe => verifySig pe hm (Pub.deserialize .nil pkb).1 (deserializeSign sigb))
       | none => "hm-mismatch"
     | _, _, _ => "bad-op"
+  | ["vrep", pkh, msg, sigh, n, hmh, peq] => match ofHex? pkh, ofHex? sigh, n.toNat?, pt? hmh with
+    -- the model is a pure function: n verifications of the same values give n times the same
+    -- verdict and leave both values as they were
+    | some pkb, some sigb, some n, some _ => match hmChecked? msg hmh with
+      | some hm =>
+        let v := verdictWith peq (fun pe => verifyBytes pe hm pkb sigb)
+        if v == "bad-op" then v else
+        String.intercalate "," (List.replicate n v) ++ " unchanged=1"
+      | none => "hm-mismatch"
+    | _, _, _, _ => "bad-op"
   | ["g1neg", a] => match pt? a with
     | some p => toHex (g1Marshal p.neg)
     | none => "bad-op"
